@@ -562,6 +562,50 @@ fn check_text(cx: &mut Ctx, t: &mut Tally, fmt: &str, text: &str, family: &str) 
     }
 }
 
+/// integers outside the i64 range: an error, or (where the parser itself falls back to a float)
+/// a float close to the value; never another integer
+fn check_out_of_range(cx: &mut Ctx, t: &mut Tally) {
+    let values: [&str; 9] = ["9223372036854775808", "9223372036854775809", "18446744073709551615", "18446744073709551616", "1000000000000000000000000000000", "-9223372036854775809", "-18446744073709551616", "12345678901234567890", "9999999999999999999"];
+    for v in values {
+        let exact: f64 = v.parse().unwrap();
+        for (fmt, texts) in [
+            ("json", vec![v.to_string(), format!("[{v}]"), format!("{{\"a\": {v}}}"), format!("[1, {{\"k\": [{v}]}}]")]),
+            ("yaml", vec![v.to_string(), format!("- {v}"), format!("a: {v}"), format!("a:\n  - b: {v}\n")]),
+            ("toml", vec![format!("a = {v}"), format!("a = [{v}]"), format!("[t]\nk = {v}\n")]),
+        ] {
+            for text in texts {
+                fn leaves(j: &J, out: &mut Vec<J>) {
+                    match j {
+                        J::List(l) | J::Tuple(l) => l.iter().for_each(|x| leaves(x, out)),
+                        J::Map(m) => m.iter().for_each(|(_, x)| leaves(x, out)),
+                        other => out.push(other.clone()),
+                    }
+                }
+                match cx.from_text(fmt, &text) {
+                    Res::Panic(p) => t.fail("out-of-range-integers", "panic", format!("{fmt}.from_string({text:?}) panicked: {p}"), format!("format: {fmt}\ntext: {text:?}\n")),
+                    Res::Err(_) => t.ok("out-of-range-integers", "err"),
+                    Res::Ok(j) => {
+                        t.ok("out-of-range-integers", &format!("{j:?}"));
+                        let mut ls = vec![];
+                        leaves(&j, &mut ls);
+                        for l in ls {
+                            let bad = match l {
+                                J::Int(i) => i != 1,
+                                J::Float(f) => ((f64::from_bits(f) - exact) / exact).abs() > 1e-12,
+                                J::Str(_) => false,
+                                _ => false,
+                            };
+                            if bad {
+                                t.fail("out-of-range-integers", "accepted-as-another-number", format!("{fmt}: {text:?} parsed to {}", short(&j)), format!("format: {fmt}\ntext: {text:?}\nvalue: {j:?}\n"));
+                            }
+                        }
+                    }
+                }
+            }
+        }
+    }
+}
+
 fn valid_docs(fmt: &str) -> Vec<&'static str> {
     match fmt {
         "json" => vec![
@@ -669,6 +713,7 @@ pub fn run(args: &Args) -> i32 {
         }
         if shard == 0 {
             check_rust_data(&mut t);
+            check_out_of_range(&mut cx, &mut t);
         }
         t
     });
